@@ -89,13 +89,17 @@ class Canon:
   """Canonicaliser; one instance per canonical form (numbering is per instance)."""
 
   def __init__(self, *, history=False, tags=True, sharing=True,
-               fill_defaults=False, dict_order=False, callable_probe=False):
+               fill_defaults=False, dict_order=False, callable_probe=False, probe_symbols=False,
+               no_identity=()):
     self.history = history
     self.tags = tags
     self.sharing = sharing
     self.fill_defaults = fill_defaults
     self.dict_order = dict_order
     self.callable_probe = callable_probe
+    self.probe_symbols = probe_symbols
+    self.no_identity = {id(o) for o in no_identity}
+    self._no_identity_pins = list(no_identity)
     self.probe_depth = 0
     self.ids = {}
     self.pins = []
@@ -111,9 +115,24 @@ class Canon:
     if is_leaf(x):
       return leaf_term(x)
     if is_symbol(x):
+      if self.probe_symbols and getattr(x, '__module__', '').startswith('harness.vuni') and self.probe_depth < 3:
+        self.probe_depth += 1
+        try:
+          try:
+            r = x()
+          except Exception as e:  # pylint: disable=broad-except
+            return ('callable', ('raises', 'TypeError' if isinstance(e, TypeError) else 'other'))
+          return ('callable', self.term(r))
+        finally:
+          self.probe_depth -= 1
       return symbol_term(x)
-    if type(x) is tuple and is_internable(x):
+    if type(x) is tuple and (is_internable(x) or (self.probe_symbols and self._internable_ps(x))):
       return ('ituple', tuple(self.term(e) for e in x))
+    if self.probe_symbols and self._probe_target(x):
+      # behavioural comparison without identity (a bare function has none)
+      return self._body(x)
+    if id(x) in self.no_identity:
+      return ('noid', self._body(x))
     if self.sharing:
       n = self.ids.get(id(x))
       if n is not None:
@@ -132,6 +151,16 @@ class Canon:
       if not self.sharing:
         self.depth -= 1
     return ('def', n, body) if self.sharing else body
+
+  def _internable_ps(self, x):
+    if type(x) is tuple:
+      return all(self._internable_ps(e) for e in x)
+    return is_internable(x) or self._probe_target(x)
+
+  def _probe_target(self, x):
+    return (self.callable_probe and callable(x) and not hasattr(x, '__vrec__') and (
+        isinstance(x, functools.partial) or hasattr(x, '__vprobe__')
+        or type(x).__name__ in ('_InvokeArgFactoryWrapper',)))
 
   def _items(self, d):
     items = [(self.vterm(k), k, v) for k, v in d.items()]
@@ -161,9 +190,7 @@ class Canon:
       return ('dict', type(x).__qualname__, self._items(x))
     if isinstance(x, (set, frozenset)):
       return (type(x).__qualname__, tuple(sorted((self.vterm(e) for e in x), key=repr)))
-    if self.callable_probe and callable(x) and not hasattr(x, '__vrec__') and (
-        isinstance(x, functools.partial) or hasattr(x, '__vprobe__')
-        or type(x).__name__ in ('_InvokeArgFactoryWrapper',)):
+    if self._probe_target(x):
       if self.probe_depth >= 3:
         return ('callable', 'too-deep')
       self.probe_depth += 1
